@@ -10,4 +10,5 @@ ListQuoteQ == {"BL", "Q"}
 ItemLeaves == {"P", "Tbl", "Code"}
 EmptyItemLeaves == {"P", "Code", "EI"}
 ListQuote == {"BL"}
+EmptyQuoteLeaves == {"H1", "H2", "P", "EQ"}
 =============================================================================
